@@ -151,8 +151,43 @@ def wrap_cs(model, cif):
     return "(fun p => px_into_srgb (%s (px_into_linear p)))" % model
 
 
+def gen_convolve(rng, order1):
+    """feConvolveMatrix whose window is uniform (1x1 kernel on any image, or any kernel on a 1x1 image), with the Model/Pixel.v term:
+    (element %% extra attributes, model, label, image size)"""
+    pres = rng.below(2) == 1
+    div = rng.choice([1.0, 1.0, 0.5, 2.0, -1.0, dy(rng, 0.25, 4), -dy(rng, 0.25, 2)])
+    bias = rng.choice([0.0, 0.0, 0.5, 1.0, dy(rng, -1, 1)])
+    big = rng.below(8) == 0
+
+    def kv():
+        if big and rng.below(2):
+            return rng.choice([3e38, -3e38, 3.4e38, 1e-40])
+        return rng.choice([1.0, 0.0, -1.0, dy(rng, -2, 2), dy(rng, 0, 1)])
+    if order1:
+        cols, rows, tx, ty, edge, size = 1, 1, 0, 0, rng.choice(['duplicate', 'wrap', 'none']), 16
+        ks = [kv()]
+        visited = ks
+    else:
+        cols, rows = rng.choice([(2, 1), (1, 2), (2, 2), (3, 1), (3, 3), (2, 3)])
+        tx, ty, edge, size = rng.below(cols), rng.below(rows), rng.choice(['duplicate', 'wrap', 'none']), 1
+        ks = [kv() for _ in range(cols * rows)]
+        # the loops visit (ox, oy) row by row and read kernel element (cols-1-ox, rows-1-oy): the reversed list; on a 1x1 image
+        # edgeMode none keeps only the cell that falls on the pixel itself (ox = targetX, oy = targetY)
+        visited = list(reversed(ks)) if edge != 'none' else [ks[(rows - 1 - ty) * cols + (cols - 1 - tx)]]
+    el = ('<feConvolveMatrix order="%d %d" kernelMatrix="%s" divisor="%s" bias="%s" targetX="%d" targetY="%d" edgeMode="%s" preserveAlpha="%s"%%s/>'
+          % (cols, rows, " ".join(num(k) for k in ks), num(div), num(bias), tx, ty, edge, 'true' if pres else 'false'))
+    mdl = "px_convolve_uniform %s %s %s [%s]" % ('true' if pres else 'false', coq_f32(div), coq_f32(bias), "; ".join(coq_f32(k) for k in visited))
+    return el, mdl, 'convolve%dx%d/%s/%s%s' % (cols, rows, edge, 'preserve' if pres else 'plain', '/huge' if big else ''), size
+
+
 def gen_apply_cases(rng, n_rand):
     cases = []
+    for j in range(n_rand // 5):          # extension round 4: the convolve leaf arithmetic through the real parser + filter::apply
+        cif = rng.choice(['sRGB', 'linearRGB'])
+        el, mdl, label, size = gen_convolve(rng, j % 3 == 0)
+        for _ in range(1 if size > 1 else 6):
+            cases.append(dict(kind=label + '/' + cif, doc=apply_doc(size, size, el % '', cif), src='rand:%d:%d:%d' % (rng.below(1 << 30), size, size),
+                              out='rgba', model=wrap_cs(mdl, cif)))
     for _ in range(n_rand):
         cif = rng.choice(['sRGB', 'linearRGB'])
         kind = rng.below(3)
@@ -208,8 +243,29 @@ def gen_wire_case(rng):
                 return n, ('(WRef %d%%N)' % defined[-1] if defined else 'WSource')     # unknown reference: previous result, else SourceGraphic
             return None, ('(WRef %d%%N)' % defined[-1] if defined else 'WSource')         # no `in`: previous result, else SourceGraphic
         attr = ' color-interpolation-filters="%s"' % cs + (' result="%s"' % nm if nm else '')
-        k = rng.below(5)
-        if k == 0:
+
+        def inp_explicit():
+            i, ci = inp()
+            return ('SourceGraphic', 'WSource') if i is None else (i, ci)
+        k = rng.below(8)
+        if k == 5:       # extension round 4: arithmetic composite, over composite / normal blend, 1x1 convolve inside chains
+            (i1, c1), (i2, c2) = inp(), inp_explicit()
+            ks = [rng.choice([0.0, 1.0, 0.5, dy(rng, -1, 2)]) for _ in range(4)]
+            xml += '<feComposite%s in2="%s" operator="arithmetic" k1="%s" k2="%s" k3="%s" k4="%s"%s/>' % (
+                (' in="%s"' % i1 if i1 else ''), i2, num(ks[0]), num(ks[1]), num(ks[2]), num(ks[3]), attr)
+            kind = "WArithmetic %s %s %s" % (" ".join(coq_f32(v) for v in ks), c1, c2)
+        elif k == 6:
+            (i1, c1), (i2, c2) = inp(), inp_explicit()
+            xml += ('<feComposite%s in2="%s" operator="over"%s/>' if rng.below(2) else '<feBlend%s in2="%s" mode="normal"%s/>') % (
+                (' in="%s"' % i1 if i1 else ''), i2, attr)
+            kind = "WOver %s %s" % (c1, c2)
+        elif k == 7:
+            i, ci = inp()
+            pres, dv, bs, kk = rng.below(2) == 1, rng.choice([1.0, 0.5, 2.0, -1.0]), rng.choice([0.0, 0.25, -0.5]), rng.choice([1.0, 2.0, 0.5, -1.0, dy(rng, 0, 2)])
+            xml += '<feConvolveMatrix order="1" kernelMatrix="%s" divisor="%s" bias="%s" preserveAlpha="%s"%s%s/>' % (
+                num(kk), num(dv), num(bs), 'true' if pres else 'false', (' in="%s"' % i if i else ''), attr)
+            kind = "WConvolve1 %s %s %s %s %s" % ('true' if pres else 'false', coq_f32(dv), coq_f32(bs), coq_f32(kk), ci)
+        elif k == 0:
             i, ci = inp()
             xml += ('<feOffset dx="0" dy="0"%s%s/>' if rng.below(2) else '<feGaussianBlur stdDeviation="0"%s%s/>') % (' in="%s"' % i if i else '', attr)
             kind = "WOffset0 %s" % ci
@@ -831,7 +887,8 @@ def run(ctx):
         "tools/gen_pixel.py (expression-level transcription of the byte kernels, tables, pass lists, guards)",
         "tiny-skia (rasteriser, draw_pixmap / fill_rect / blend modes, blur-independent parts), usvg filter parsing: unmodelled, exercised by "
         "correspondence and the system oracle only; tiny-skia's u8 SourceOver is hand-modelled (over_u8) and compared exhaustively",
-        "blur kernels, lighting, turbulence noise, displacement, tile, convolve, blend modes, Gamma transfer, hueRotate: covered by the system oracle only",
+        "blur kernels, lighting, turbulence noise, displacement, tile, non-normal blend modes, in/out/atop/xor composite, Gamma transfer, hueRotate, flood: covered by "
+        "the system oracle only (feConvolveMatrix: validity proved for every window; window selection by edge mode only exercised on uniform windows)",
     ]
     ctx.assumptions = ["pixmap dimensions below 2^24 (integer -> f32 conversions of sizes are exact)",
                        "content painted with solid colours and gradients (tiny-skia's bicubic pattern shader is outside the validity clause)",
@@ -1217,6 +1274,7 @@ def run(ctx):
                 ('search_identity_matrix', IMPORTS, "the identity colour matrix changes an opaque grey pixel"),
                 ('search_identity_transfer', IMPORTS, "an identity transfer function (linear 1 0 / table 0 1) changes a byte"),
                 ('search_lut_monotone', IMPORTS, "a lookup table is not monotone"),
+                ('search_convolve_valid', IMPORTS, "feConvolveMatrix stores a colour channel above alpha"),
                 ('into_linear_bad', ['Model.Base', 'Model.F32', 'Gen.PixelTables', 'Model.SrgbSpec'], "SRGB_TO_LINEAR_RGB_TABLE entry is not the rounded sRGB transfer function"),
                 ('from_linear_bad', ['Model.Base', 'Model.F32', 'Gen.PixelTables', 'Model.SrgbSpec'], "LINEAR_RGB_TO_SRGB_TABLE entry is not the rounded sRGB transfer function"),
             ]
@@ -1231,7 +1289,17 @@ def run(ctx):
                 if not m or not m.group(1).strip():
                     continue
                 nums = [int(x) for x in _re.findall(r"-?\d+", m.group(1))]
-                if n in ('search_mul_valid', 'search_roundtrip'):
+                if n == 'search_convolve_valid':
+                    pv, k4, d4, b4, c0, a0 = nums[:6]
+                    doc = apply_doc(256, 1, '<feConvolveMatrix order="1" kernelMatrix="%s" divisor="%s" bias="%s" preserveAlpha="%s"/>'
+                                    % (num(k4 / 4), num(d4 / 4), num(b4 / 4), 'true' if pv else 'false'))
+                    o = jload(ctx.rvh_batch(binp, 'c16-apply', ["-\t%s\t1,0,0,1,0,0\tpairs:%d\tra" % (doc, a0)])[0])
+                    got = o.get('out', [None] * 512)[2 * c0:2 * c0 + 2]
+                    ctx.violation("%s (C16_convolve_valid): model counterexample kernelMatrix=%s divisor=%s bias=%s preserveAlpha=%s on the pixel (%d,%d,%d,%d); the real "
+                                  "filter::apply stores r,a=%s" % (text, num(k4 / 4), num(d4 / 4), num(b4 / 4), bool(pv), c0, c0, c0, a0, got),
+                                  dict(op='c16-apply', doc=doc, src='pairs:%d' % a0, pixel=c0, lemma=n, witness=nums[:6], failed_files=res['failed']),
+                                  found_input=bool(got and got[0] is not None and got[0] > got[1]))
+                elif n in ('search_mul_valid', 'search_roundtrip'):
                     c0, a0 = nums[0], nums[1]
                     doc = apply_doc(256, 1, '<feColorMatrix type="matrix" values="%s"/>' % IDENT)
                     o = jload(ctx.rvh_batch(binp, 'c16-apply', ["-\t%s\t1,0,0,1,0,0\tpairs:%d\tra" % (doc, a0)])[0])
